@@ -49,10 +49,11 @@ def remap_order(ctx):
         fn = m.fn("%s.%s" % (CLS, meth))
         param = arg_names(fn)[1]
         rets = [s for s in fn.body if isinstance(s, ast.Return)]
-        if len(rets) != 1 or not (isinstance(rets[0].value, ast.Call) and unparse(rets[0].value.func).endswith("hstack") and isinstance(rets[0].value.args[0], ast.List)):
+        rv = roles.inline(rets[0].value, roles.Defs(fn)) if len(rets) == 1 and rets[0].value is not None else None
+        if rv is None or not (isinstance(rv, ast.Call) and unparse(rv.func).endswith("hstack") and rv.args and isinstance(rv.args[0], ast.List)):
             raise AnalysisError("%s does not return an hstack of a literal list" % meth)
         seq = []
-        for e in rets[0].value.args[0].elts:
+        for e in rv.args[0].elts:
             if not (isinstance(e, ast.Call) and unparse(e.func).endswith(fname) and len(e.args) == nargs and isinstance(e.args[0], ast.Name) and e.args[0].id == param
                     and all(isinstance(a, ast.Constant) for a in e.args[1:])):
                 raise AnalysisError("%s: unexpected list element %s" % (meth, unparse(e)))
@@ -356,11 +357,11 @@ def check_result_layout(ctx):
         # the locals by role: the rule object is the receiver of .get_arrays(); the returned triple is (rows, cols, values)
         recv = {c.func.value.id for c in calls_in(fn) if isinstance(c.func, ast.Attribute) and c.func.attr == "get_arrays" and isinstance(c.func.value, ast.Name)}
         ret = [s for s in fn.body if isinstance(s, ast.Return)]
-        if len(recv) != 1 or len(ret) != 1 or not (isinstance(ret[0].value, ast.Tuple) and len(ret[0].value.elts) == 3 and all(isinstance(e, ast.Name) for e in ret[0].value.elts)):
+        if len(recv) != 1 or len(ret) != 1 or not (isinstance(ret[0].value, ast.Tuple) and len(ret[0].value.elts) == 3):
             raise AnalysisError("assemble_singular_part: rule object (receiver of get_arrays) or `return (rows, cols, values)` not found")
         RULE = recv.pop()
         ret = ret[0]
-        I, J, RES = (e.id for e in ret.value.elts)
+        I, J, RES = ret.value.elts  # expressions (a local, or the index formula written in place)
         env = {RULE: rule, "_np": Opq("_np", "module")}
         it = Interp(m, fn, env, {"globals": {"_np": Opq("_np", "module")}, "attr": attr})
         # bind the two shape-function counts by provenance
@@ -378,7 +379,7 @@ def check_result_layout(ctx):
             raise AnalysisError("assemble_singular_part: shape function counts not found")
         it.env.update(names)
         simple = {st.targets[0].id: st for st in fn.body if isinstance(st, ast.Assign) and len(st.targets) == 1 and isinstance(st.targets[0], ast.Name)}
-        wanted, todo = set(), [I, J]
+        wanted, todo = set(), [n.id for e in (I, J) for n in ast.walk(e) if isinstance(n, ast.Name)]
         while todo:
             nm = todo.pop()
             if nm in wanted or nm in names or nm == RULE or nm not in simple:
@@ -391,8 +392,8 @@ def check_result_layout(ctx):
         pair, i, j = symex.fresh("pair"), symex.fresh("i"), symex.fresh("j")
         symex.RANGES[pair], symex.RANGES[i], symex.RANGES[j] = P, NT, NR
         slot = NT * NR * V.atom(pair) + V.atom(i) * NR + V.atom(j)
-        gi = tov(it.index(it.env[I], [slot], fn))
-        gj = tov(it.index(it.env[J], [slot], fn))
+        gi = tov(it.index(it.ev(I), [slot], fn))
+        gj = tov(it.index(it.ev(J), [slot], fn))
         wi = NT * opaque_atom("test_indices", [V.atom(pair)]) + V.atom(i)
         wj = NR * opaque_atom("trial_indices", [V.atom(pair)]) + V.atom(j)
         ln = fn.lineno
@@ -401,7 +402,7 @@ def check_result_layout(ctx):
         # the third returned array is the one the kernel launch wrote: last positional argument of the dispatcher call
         disp = [c for c in calls_in(fn) if unparse(c.func).endswith("singular_assembler_dispatcher")]
         filled = unparse(disp[0].args[-1]) if len(disp) == 1 and disp[0].args else None
-        r.check(filled == RES, "return order", SA, fn.name, ret.lineno, "assemble_singular_part returns " + unparse(ret.value),
+        r.check(filled == unparse(RES), "return order", SA, fn.name, ret.lineno, "assemble_singular_part returns " + unparse(ret.value),
                 "assemble_singular_part returns %s: the first two are decoded as row / column indices (above), the third must be the array handed to the singular kernels (`%s`)" % (unparse(ret.value), filled))
     finally:
         pass
